@@ -53,6 +53,11 @@ FIELD_SORTS: dict[str, tuple[tuple, object]] = {
     # dynamic instance attributes (attributes=, setattr, temporaries)
     "dyn_has": ((Ref, Str), Bool),
     "dyn_val": ((Ref, Str), Ref),
+    # PlantUML option tables (C14): options = {class: {option name: value}}
+    "opt_has": ((Ref, Cls), Bool),       # the class is a key of the option table
+    "opt_get": ((Ref, Cls), Ref),        # the per-class option dictionary stored under it
+    "od_has": ((Ref, Str), Bool),        # the option dictionary has this key
+    "od_val": ((Ref, Str), Ref),         # its value
     # interpreter-global state
     "CACHING": ((), Bool),              # Vertex.NEIGHBOR_CACHING
     "stats_has": ((Int,), Bool),        # uid in Vertex._CACHE_STATS
